@@ -101,7 +101,7 @@ def case(draw):
     return {"eq": eq, "fd": fd, "td": td, "mid": mid, "fu": draw(st.sampled_from(POOL[fd])), "tu": draw(st.sampled_from(POOL[td])),
             "mu_": draw(st.sampled_from(POOL[mid])), "vals": vals, "expo": expo, "mu": draw(st.sampled_from([None, 0.6, 1.0, 1.4, 2.3, 0.25])),
             "gamma": draw(st.sampled_from([None, 5 / 3, 1.4, 1.0, 7 / 5, 3.0])), "scalar": n == 1 and draw(st.booleans()),
-            "int": draw(st.integers(0, 5)) == 0}
+            "int": draw(st.integers(0, 5)) == 0, "f32": draw(st.integers(0, 4)) == 0, "array_kw": draw(st.integers(0, 5)) == 0}
 
 
 def _kw(c):
@@ -144,6 +144,9 @@ def judge(c, part):
     if c["int"] and eq != "lorentz":
         vals = [float(max(1, int(round(v)))) for v in vals]
         arr = np.array(vals, dtype="int64")
+    elif c.get("f32") and eq != "lorentz":
+        arr = np.array(vals, dtype="float32")  # some formula steps (x*x) stay in single precision: tolerance below
+        vals = [float(v) for v in arr]
     else:
         arr = np.array(vals, dtype="float64")
     mk = lambda: (unyt_quantity(arr[0], fu) if c["scalar"] else unyt_array(arr.copy(), fu))  # noqa: E731
@@ -154,6 +157,9 @@ def judge(c, part):
         part.count("excluded_range")
         return out
     rtol = 1e-11 if eq != "lorentz" else 1e-7
+    f32 = arr.dtype == np.float32
+    if f32:
+        rtol = 5e-6  # a handful of single-precision roundings, but never an overflow to inf in a double-range result
     if fu not in SI_COHERENT or tu not in SI_COHERENT:
         part.nt((eq, fd, td, fu, tu))
     part.count(f"{eq}: {fd}->{td}")
@@ -205,8 +211,24 @@ def judge(c, part):
             continue
         if z.units != y.units or str(z.units) != str(y.units):
             bad(f"inplace-unit-differs:{rn}", inplace=z.units, copy=y.units)
-        elif not _close(np.asarray(z), np.asarray(y), 1e-13):
+        elif not _close(np.asarray(z), np.asarray(y), rtol if f32 else 1e-13):
             bad(f"inplace-numbers-differ:{rn}", inplace=z, copy=y)
+    # array-valued mu / gamma broadcast against a scalar input
+    if c.get("array_kw") and kw and c["scalar"]:
+        k0 = sorted(kw)[0]
+        kw2 = dict(kw)
+        kw2[k0] = np.array([kw[k0], kw[k0] * 2.0, kw[k0] * 0.5])
+        try:
+            rb = mk().to_equivalent(tu, eq, **kw2)
+            wants = [formula(eq, fd, td, xsi, kw2.get("mu", np.float64(mu))[i] if k0 == "mu" else mu, kw2.get("gamma", gamma)[i] if k0 == "gamma" else gamma) for i in range(3)]
+            w3 = np.array([float(np.ravel(w)[0]) for w in wants])
+            g3 = np.asarray(rb, dtype=float) * stt
+            if np.shape(rb) == () and np.all(w3 == w3[0]):
+                g3 = np.full(3, float(g3))  # the keyword does not enter this direction of the formula
+            if not _close(g3, w3, rtol):
+                bad(f"array-valued-keyword:{k0}", got=rb, want=[float(np.ravel(w)[0]) for w in wants])
+        except Exception as e:
+            bad(f"array-valued-keyword-raises:{k0}", error=f"{type(e).__name__}: {e}")
     # there and back
     try:
         back = y.to_equivalent(fu, eq, **kw)
